@@ -215,6 +215,9 @@ Definition obj_addr_seq (m : option emap) (open_ok : bool) (ef : elf) (addrs : l
   | a0 :: _ => let st := compute_base m open_ok ef a0 in map (obj_addr_with st) addrs
   end.
 
+(* addr2liner.go:177 and addr2liner_llvm.go:177: the address written to the external tool *)
+Definition tool_addr (base addr : Z) : Z := usub addr base.
+
 (* ---- addr2liner_nm.go ---- *)
 Record sym := { sy_addr : Z; sy_size : Z; sy_name : string; sy_type : string }.
 
